@@ -6,7 +6,7 @@ and WeakRingBuffer<void,...> (harness/C12/mainv.cpp) under the deterministic sch
 schedules, plus ALL interleavings of short programs (DFS over schedules).  Implementation-side monitors (value /
 byte exact FIFO, failure justification) are the failing-input search."""
 import os, json
-import vcheck, conc_check
+import vcheck, conc_check, conc_windows
 
 VARIANTS = {
     "ring":  {"extract": "Extract_Ring.v",  "harness": "harness/C12/main.cpp",  "tag": "ring"},
@@ -149,6 +149,60 @@ def mk_dfs_cases(templates, tier_thorough):
         cfg, P, C = t[0], t[1], t[2]
         out.append({"id": "d%d" % i, "cfg": cfg, "threads": [P, C], "sched": [], "prefix": list(t[3]) if len(t) > 3 else []})
     return out
+
+
+# model-guided window schedules (lib/conc_windows.py).  The ring has no CAS: the writes are the plain stores that
+# publish back_ / front_ (and, void ring, the record headers); the rare paths are the reload of the other side's
+# counter when the cached copy says "no room" / "nothing there", and the failing second test after it.  The victim is
+# stalled before ANY of its steps (between its load of its own counter and the reload of the other one, between the
+# reload and the publishing store), the actor runs exactly through one of its stores or to its end, the victim gets r
+# more steps; templates have a set-up prefix run by the producer (ring full / about to wrap) and 2-4 operations per
+# thread so that the cached counters are stale in the later operations.
+WINDOW_RING = [
+    # (cfg, producer set-up, producer, consumer)
+    ([2, 0, 0], [],                 [[2, 10], [2, 11], [2, 12]],            [[5], [5], [5]]),
+    ([2, 0, 0], [[1, 10, 11]],      [[2, 12], [2, 13]],                     [[5], [6], [5]]),          # full ring: push must reload front_
+    ([4, 1, 0], [[1, 10, 11, 12]],  [[1, 13, 14], [1, 15, 16]],             [[4, 2], [4, 3]]),
+    ([3, 0, 1], [],                 [[2, 10], [3, 11], [2, 12], [2, 13]],   [[7], [8], [6], [5]]),
+    ([2, 0, 0], [],                 [[1, 10, 11], [9], [1, 12]],            [[10], [4, 2], [9]]),
+    ([3, 1, 2], [[1, 10, 11, 12, 13]], [[2, 14], [1, 15, 16]],              [[4, 1], [4, 3], [7]]),    # exp2: 3 -> 4, full
+    ([5, 0, 0], [[1, 10, 11, 12, 13]], [[1, 14, 15], [1, 16, 17, 18]],      [[4, 2], [4, 4], [4, 3]]),
+    ([2, 1, 1], [[2, 10]],          [[2, 11], [2, 12], [2, 13]],            [[8], [7], [7], [5]]),
+]
+WINDOW_RINGV = [
+    ([16, 1], [],             [[1, 1, 7], [1, 8, 9], [1, 3, 2]],    [[6], [6], [6]]),
+    ([24, 0], [[1, 8, 1]],    [[1, 5, 2], [1, 4, 3]],               [[6], [6], [6]]),      # second record wraps (tail of 8)
+    ([40, 0], [[1, 16, 3]],   [[1, 12, 4], [1, 9, 5]],              [[6], [4], [6]]),
+    ([64, 1], [[1, 48, 5]],   [[1, 9, 6], [1, 20, 7]],              [[6], [6], [6]]),      # tail of exactly 8 bytes
+    ([64, 0], [[1, 16, 7]],   [[2, 32, 8], [1, 8, 9]],              [[4], [6], [6]]),      # exact fit at the end
+    ([40, 0], [[1, 24, 11]],  [[1, 24, 12], [1, 24, 13]],           [[6], [6]]),           # second space test fails while the consumer lags
+    ([16, 1], [[1, 7, 13]],   [[1, 7, 14], [1, 7, 15]],             [[6], [6], [6]]),      # real size == capacity
+    ([24, 0], [],             [[1, 8, 15]],                         [[6], [6]]),
+]
+
+
+def gen_window_cases(ctx, var, rng, quick):
+    wdir = os.path.join(ctx.work, "wprobe_" + var)
+    os.makedirs(wdir, exist_ok=True)
+    model = VARIANTS[var]["model"]
+    tpls = WINDOW_RING if var == "ring" else WINDOW_RINGV
+    cases = []
+    info = {"templates": len(tpls), "enumerated": 0, "model_probes": 0}
+    for ti, (cfg, setup, P, C) in enumerate(tpls):
+        threads, sw, inf = conc_windows.windows(model, wdir, cfg, [P, C], setup=setup, kinds=("st",), stall="all",
+                                                rs=(0, 1, 2, 3, 5) if quick else (0, 1, 2, 3, 4, 5, 6, 8, 11), tag="w%s%d" % (var[-1], ti))
+        info["enumerated"] += len(sw)
+        info["model_probes"] += inf["model_probes"]
+        if quick:
+            sw = conc_windows.subsample(rng, sw, 40)
+        for name, sched in sw:
+            cases.append({"id": "w%d_%s" % (ti, name), "cfg": cfg, "threads": threads, "sched": sched})
+    if not quick and len(cases) > 6000:
+        # thorough tier: the full enumeration, up to a budget (a seeded subsample beyond it; 'enumerated' says how many there are)
+        cases = conc_windows.subsample(rng, cases, 6000)
+        info["thorough_budget"] = 6000
+    info["cases"] = len(cases)
+    return cases, info
 
 
 # ------------------------------------------------------------------------------------------------ running
@@ -302,6 +356,11 @@ def analyse(ctx, var, cases, ml, il, st):
             ecap = ceil2(c["cfg"][0]) if c["cfg"][1] else c["cfg"][0]
             for h in void_layout_hits(i["lines"], ecap):
                 st["layout"][h] = st["layout"].get(h, 0) + 1
+        if i["end"] == "hang" or any(x.startswith("monitor hang") for x in i["extra"]):
+            # harness/C12/watchdog.h: the case did not end (an operation or the ring's destructor loops for ever)
+            st["hangs"] = st.get("hangs", 0) + 1
+            ctx.violation("WeakRingBuffer%s: an operation or the destructor of the real ring does not terminate on this program and schedule (harness watchdog; the model terminates)" % ("<void>" if var == "ringv" else "<int>"),
+                          {"variant": var, "case": c, "monitor": [x for x in i["extra"] if x.startswith("monitor")], "impl_log": i["lines"]}, signature=None)
         for x in i["extra"]:
             if x.startswith("monitor bad"):
                 st["monitor_bad"] += 1
@@ -352,6 +411,7 @@ def run(ctx):
             c = r["case"]; c["id"] = "corpus_" + f[:-5]
             corpus[r.get("variant", "ring")].append(c)
     samples = {}
+    winfo = {}
     for var in ("ring", "ringv"):
         st = stats[var]
         # 2. generated programs x schedules
@@ -375,7 +435,29 @@ def run(ctx):
                 dcases.append({"id": "%s_%d" % (base["id"], k), "cfg": base["cfg"], "threads": base["threads"], "sched": s + [0] * 8})
         ml2, il2 = run_variant(ctx, var, dcases, var + "_dfs")
         d2 = analyse(ctx, var, dcases, ml2, il2, st)
-        divs[var] = d or d2
+        # 4'. model-guided window schedules
+        t_w = os.times()
+        wcases, winfo[var] = gen_window_cases(ctx, var, ctx.rng.fork(), not ctx.thorough())
+        ml3, il3 = run_variant(ctx, var, wcases, var + "_win")
+        before = (st["diverged"], st["monitor_bad"], len(st["nontrivial"]))
+        d3 = analyse(ctx, var, wcases, ml3, il3, st)
+        t_w2 = os.times()
+        paths = {}
+        for c in wcases:
+            m = ml3.get(c["id"])
+            for sg in (op_signatures(m["lines"]) if m else []):
+                name, acc, r_ = sg.split(":")
+                toks = acc.split(",")
+                if len(set(t for t in toks if t.startswith("ld"))) >= 2:
+                    paths["reloaded_other_counter"] = paths.get("reloaded_other_counter", 0) + 1
+                    if r_.endswith("fail") or r_.endswith("null"):
+                        paths["failed_after_reload"] = paths.get("failed_after_reload", 0) + 1
+        winfo[var].update({"cpu_s": round((t_w2.user + t_w2.system + t_w2.children_user + t_w2.children_system) - (t_w.user + t_w.system + t_w.children_user + t_w.children_system), 1),
+                           "diverged_from_model": st["diverged"] - before[0], "monitor_failures": st["monitor_bad"] - before[1],
+                           "operations_on_rare_paths": paths, "failed_cas_events": 0,
+                           "note": "the ring has no CAS; the rare paths are the reload of the other side's counter and the failing test after it"})
+        ctx.log("%s: %d window cases (%d enumerated), rare paths %s, cpu %.1fs" % (var, len(wcases), winfo[var]["enumerated"], paths, winfo[var]["cpu_s"]))
+        divs[var] = d or d2 or d3
         ctx.log("%s: %d generated + %d interleavings of %d programs, diverged %d, monitor_bad %d" % (var, len(cases), len(dcases), st["dfs_programs"], st["diverged"], st["monitor_bad"]))
 
     # 4. the correspondence broke without the monitor having fired: search for a concrete failure of the property
@@ -405,7 +487,7 @@ def run(ctx):
     ctx.coverage.update({
         "evaluations": stats["ring"]["evaluations"] + stats["ringv"]["evaluations"],
         "distinct_nontrivial": len(stats["ring"]["nontrivial"]) + len(stats["ringv"]["nontrivial"]),
-        "rule": "program x schedule pairs of the two threads (typed ring: capacities 2,3,4,5,8, Exp2 on/off, dynamic / uninitialized_static / initialized_static buffers, 1-6 operations per thread; void ring: capacities 16,24,40,64, Exp2 on/off, record sizes 1..capacity-9 aimed at exact fit, 8-byte tail, wrap, failing second space test), schedules uniform / bursty / run-then-switch / producer-ahead from one splitmix64 stream, plus ALL interleavings (DFS over schedules, driven by the model) of the short programs listed in checks/C12.py; distinct = distinct model event logs; non-trivial = some operation reloaded the other thread's counter, failed, or skipped a tail marker",
+        "rule": "program x schedule pairs of the two threads (typed ring: capacities 2,3,4,5,8, Exp2 on/off, dynamic / uninitialized_static / initialized_static buffers, 1-6 operations per thread; void ring: capacities 16,24,40,64, Exp2 on/off, record sizes 1..capacity-9 aimed at exact fit, 8-byte tail, wrap, failing second space test), schedules uniform / bursty / run-then-switch / producer-ahead from one splitmix64 stream, plus ALL interleavings (DFS over schedules, driven by the model) of the short programs listed in checks/C12.py, plus model-guided window schedules (victim stalled before any of its steps, the other thread exactly through one of its publishing stores or to its end; templates with a producer set-up prefix: full ring, wrap, stale cached counters; see window_schedules); distinct = distinct model event logs; non-trivial = some operation reloaded the other thread's counter, failed, or skipped a tail marker",
         "traces_validated_against_impl": stats["ring"]["evaluations"] + stats["ringv"]["evaluations"] - stats["ring"]["diverged"] - stats["ringv"]["diverged"],
         "per_variant": {var: {"evaluations": st["evaluations"], "distinct_event_logs": len(st["shapes"]), "distinct_nontrivial": len(st["nontrivial"]),
                               "impl_steps_compared": st["steps"], "diverged": st["diverged"], "monitor_failures": st["monitor_bad"], "refused_by_harness": st["refused"],
@@ -414,6 +496,7 @@ def run(ctx):
                               "corpus_cases": len(corpus[var])} for var, st in stats.items()},
         "candidate_finding_void_back_fails_on_empty_ring": stats["ringv"]["empty_fail"],
         "samples": [samples.get("ring"), samples.get("ringv")],
+        "window_schedules": winfo,
         "modelled": "WeakRingBuffer<T>: push(arr,n), push(v)/emplace/enqueue_with, pop(arr,n), pop(v)/dequeue, dequeue_with, front, pop_front, size, empty; WeakRingBuffer<void>: back, push_back, push_back(data,size), front, pop_front",
     })
     return ctx.finish(vcheck.STD_TRUSTED + ["hook layer: khizmax_libcds_verif::atomic<T>, baton scheduler, event log (hooks/include)", "ocaml/conc_main.ml event printer"],
